@@ -8,13 +8,9 @@
 (* Trace_ParetoTable.tla evaluates ParetoTable!Covers on it (binding C).    *)
 EXTENDS ParetoTable, TLC, Json, IOUtils
 
-CONSTANTS R,         \* rows: exactly R (exhaustive) / 2..R (random)
-          Vals,      \* values of objective / reservation / other columns
-          DVals,     \* values of fused-loop (diff) and n_iterations columns
-          SchemaIds, \* which schemas to use
-          TolIds,    \* which entries of TolGrid to use
-          ConstIds,  \* which entries of ConstSets to use
-          N          \* number of random cases
+CONSTANTS ExhFamilies,  \* set of families enumerated exhaustively (see Fam below)
+          RandFamilies, \* sequence of families sampled by the random generator
+          N             \* number of random cases
 
 VARIABLES T, sid, ti, ci, n
 vars == <<T, sid, ti, ci, n>>
@@ -108,46 +104,86 @@ Rec ==
 Emit == PrintT(ToJson(Rec))
 
 ---------------------------------------------------------------------------
-(* Exhaustive: every R-row table over Vals for every schema in SchemaIds.   *)
-ExhInit == /\ sid \in SchemaIds
-           /\ T \in [1..R -> [1..Len(Schemas[sid]) -> Vals]]
-           /\ ti \in TolIds
-           /\ ci \in ConstIds
+(* A family: tables with r rows (exhaustive: exactly r; random: 2..r) for   *)
+(* the schemas sids, objective/reservation/other values from vals,          *)
+(* fused-loop and n_iterations values from dvals, tolerances tols (indices  *)
+(* into TolGrid) and constant-column sets cis (indices into ConstSets).     *)
+Fam(r, sids, vals, dvals, tols, cis) ==
+  [r |-> r, sids |-> sids, vals |-> vals, dvals |-> dvals, tols |-> tols, cis |-> cis]
+
+AllTols == 1..12
+AllConst == 1..5
+
+\* quick tier, exhaustive
+ExhQuick == {
+  Fam(3, {1, 2, 3}, {4, 5, 8}, {}, {1, 2, 4, 5, 8}, {2}),      \* 2 columns, 5 tolerances
+  Fam(3, {4}, {1, 2, 3}, {1, 2}, {1}, {3}),                    \* objective, reservation, fused loop; zero tolerance
+  Fam(3, {4}, {4, 5}, {1, 2}, {5, 6, 7, 11}, {5}) }            \* same schema, 4 tolerances
+\* thorough tier, exhaustive
+ExhThorough == {
+  Fam(3, {1, 2, 3}, {4, 5, 6, 8}, {}, {1, 2, 4, 5, 8}, {2}),
+  Fam(3, {4, 5, 7}, {1, 2, 3}, {1, 2}, {1}, {3}),
+  Fam(3, {4}, {2, 3, 4}, {1, 2}, {5, 6, 7, 11}, {5}),
+  Fam(4, {1, 2}, {4, 5, 8}, {}, {1, 5, 8}, {4}),
+  Fam(4, {4}, {4, 5}, {1, 2}, {1, 5, 7}, {1}) }
+
+RandAll == <<
+  \* up to 12 rows, every schema, every tolerance; small values (wide ratios)
+  Fam(12, 1..13, {1, 2, 3, 4, 5, 6, 7, 8, 12, 16}, {1, 2, 4}, AllTols, AllConst),
+  Fam(12, 1..13, {1, 2, 3, 4, 5, 6, 7, 8, 12, 16}, {1, 2, 4}, AllTols, AllConst),
+  Fam(12, 1..13, {1, 2, 3, 4, 5, 6, 7, 8, 12, 16}, {1, 2, 4}, AllTols, AllConst),
+  \* up to 40 rows, values within a few percent of each other (small tolerances bite)
+  Fam(40, {4, 9, 10, 11, 12, 13}, {96, 100, 101, 102, 104, 108, 110, 112, 120, 128}, {1, 2},
+      {1, 2, 5, 6, 7, 9, 10, 12}, AllConst),
+  Fam(40, {4, 9, 10, 11, 12, 13}, {96, 100, 101, 102, 104, 108, 110, 112, 120, 128}, {1, 2},
+      {1, 2, 5, 6, 7, 9, 10, 12}, AllConst) >>
+\* up to 160 rows, wide schemas, zero among the values
+RandBig == <<
+  Fam(160, {9, 10, 11, 12}, {0, 1, 2, 3, 4, 5, 6, 7, 8, 10, 12, 16, 24, 32}, {1, 2, 4}, AllTols, AllConst) >>
+NoFamilies == {}
+NoRand == <<>>
+
+ValsOf(f, k) == IF k \in {"diff", "niter"} /\ f.dvals # {} THEN f.dvals ELSE f.vals
+
+(* Exhaustive: every table of every family.                                 *)
+RowsOf(f, S) == {row \in [1..Len(S) -> f.vals \cup f.dvals] :
+                   \A c \in 1..Len(S) : row[c] \in ValsOf(f, S[c].cls)}
+ExhInit == /\ \E f \in ExhFamilies :
+                /\ sid \in f.sids
+                /\ T \in [1..f.r -> RowsOf(f, Schemas[sid])]
+                /\ ti \in f.tols
+                /\ ci \in f.cis
            /\ n = 0
 ExhNext == UNCHANGED vars
 
 ---------------------------------------------------------------------------
-(* Random (-simulate): N tables with 2..R rows.  Rows are frequently copies *)
-(* of an earlier row with one or two cells changed, so that dominated       *)
-(* neighbours, duplicates on the compared columns and near-ties in ratio    *)
-(* are common.                                                              *)
-ValsOf(k) == IF k \in {"diff", "niter"} THEN DVals ELSE Vals
+(* Random (-simulate): N tables.  Rows are frequently copies of an earlier  *)
+(* row with one or two cells changed, so that dominated neighbours,         *)
+(* duplicates on the compared columns and near-ties in ratio are common.    *)
+RandRow(f, S) == [c \in 1..Len(S) |-> RandomElement(ValsOf(f, S[c].cls))]
 
-RandRow(S) == [c \in 1..Len(S) |-> RandomElement(ValsOf(S[c].cls))]
-
-RECURSIVE RandRows(_, _)
-RandRows(S, k) ==
+RECURSIVE RandRows(_, _, _)
+RandRows(f, S, k) ==
   IF k = 0 THEN <<>>
-  ELSE LET prev == RandRows(S, k - 1)
+  ELSE LET prev == RandRows(f, S, k - 1)
            mode == RandomElement(0..3)
        IN IF mode <= 1 /\ prev # <<>>
           THEN LET src == prev[RandomElement(1..Len(prev))]
                    c1  == RandomElement(1..Len(S))
                    c2  == RandomElement(1..Len(S))
-                   r1  == [src EXCEPT ![c1] = RandomElement(ValsOf(S[c1].cls))]
+                   r1  == [src EXCEPT ![c1] = RandomElement(ValsOf(f, S[c1].cls))]
                IN Append(prev, IF mode = 0 THEN r1
-                               ELSE [r1 EXCEPT ![c2] = RandomElement(ValsOf(S[c2].cls))])
-          ELSE Append(prev, RandRow(S))
+                               ELSE [r1 EXCEPT ![c2] = RandomElement(ValsOf(f, S[c2].cls))])
+          ELSE Append(prev, RandRow(f, S))
+
+RandCase(f, s) == [sid |-> s, T |-> RandRows(f, Schemas[s], RandomElement(2..f.r)),
+                   ti |-> RandomElement(f.tols), ci |-> RandomElement(f.cis)]
+RandDraw == LET f == RandFamilies[RandomElement(1..Len(RandFamilies))]
+            IN RandCase(f, RandomElement(f.sids))
 
 RandInit == /\ n = 0
-            /\ sid = RandomElement(SchemaIds)
-            /\ T = RandRows(Schemas[sid], 2)
-            /\ ti = RandomElement(TolIds)
-            /\ ci = RandomElement(ConstIds)
+            /\ \E c \in {RandDraw} : sid = c.sid /\ T = c.T /\ ti = c.ti /\ ci = c.ci
 RandNext == /\ n < N
             /\ n' = n + 1
-            /\ sid' = RandomElement(SchemaIds)
-            /\ T' = RandRows(Schemas[sid'], RandomElement(2..R))
-            /\ ti' = RandomElement(TolIds)
-            /\ ci' = RandomElement(ConstIds)
+            /\ \E c \in {RandDraw} : sid' = c.sid /\ T' = c.T /\ ti' = c.ti /\ ci' = c.ci
 =============================================================================
